@@ -428,6 +428,28 @@ func callOfAtom(a Atom) (call *ssa.Call, ok bool, success bool) {
 	}
 	c, isCall := v.(*ssa.Call)
 	if !isCall {
+		// whole-value comparisons reported as integers:
+		// subtle.ConstantTimeCompare(a, b) == 1, bytes.Compare(a, b) == 0
+		if bo, isBo := v.(*ssa.BinOp); isBo && a.Kind == Truth && (bo.Op == token.EQL || bo.Op == token.NEQ) {
+			for _, pr := range [][2]ssa.Value{{bo.X, bo.Y}, {bo.Y, bo.X}} {
+				cc, isC := pr[0].(*ssa.Call)
+				k, isK := pr[1].(*ssa.Const)
+				if !isC || !isK || k.Value == nil || cc.Call.StaticCallee() == nil {
+					continue
+				}
+				wantK := int64(-1)
+				switch cc.Call.StaticCallee().RelString(nil) {
+				case "crypto/subtle.ConstantTimeCompare":
+					wantK = 1
+				case "bytes.Compare":
+					wantK = 0
+				}
+				if wantK < 0 || k.Int64() != wantK {
+					continue
+				}
+				return cc, true, (bo.Op == token.EQL) == a.Pol
+			}
+		}
 		return nil, false, false
 	}
 	sig := c.Call.Signature()
